@@ -101,21 +101,20 @@ def scenarios(tier, seed):
       combos += [(tuple(sorted((body_of[pr[0]], body_of[pr[1]]))), pr) for pr in gpairs]
     for fp in (1, 0):
       for ex, pr in combos:
-        if True:
-          orders = (0, 1) if (tier == "thorough" and (ex or pr)) else (0,)
-          for rev in orders:
-            out.append(
-              dict(
-                fam="C",
-                **t,
-                filterparent=fp,
-                exclude_bodies=[list(ex)] if ex else [],
-                pair=[list(pr)] if pr else [],
-                rev=rev,
-                nmask=nmask,
-                variant=variant,
-              )
+        orders = (0, 1) if (tier == "thorough" and (ex or pr)) else (0,)
+        for rev in orders:
+          out.append(
+            dict(
+              fam="C",
+              **t,
+              filterparent=fp,
+              exclude_bodies=[list(ex)] if ex else [],
+              pair=[list(pr)] if pr else [],
+              rev=rev,
+              nmask=nmask,
+              variant=variant,
             )
+          )
   return out
 
 
